@@ -196,6 +196,26 @@ def run(ctx) -> None:
         shapes_ok = shapes_ok and all(t in ("(?P<F>P)", "(?P<F_0>P)") for t in alts)
     ok2 = shapes_ok and "(?P<F>P)" in folded
     ctx.check("R4", ok2, "_iter_part_patterns emits (?P<field>part_pattern)", "v2patterns._iter_part_patterns: named group shape changed", f"{folded}", loc=ipp.loc())
+    # group names are unique: the field of every emitted group is recorded before the next group is named
+    # (a pattern may use a field twice - YYYY and YY, {version} next to {pep440_version} - and re.compile refuses duplicate names)
+    icfg = ctx.cfgs.get(ipp.fq)
+    member = [n for n in walk_no_nested(ipp.node) if isinstance(n, (ast.If, ast.IfExp)) and isinstance(n.test, ast.Compare) and len(n.test.ops) == 1
+              and isinstance(n.test.ops[0], (ast.In, ast.NotIn)) and unparse(n.test.left) == "field" and isinstance(n.test.comparators[0], ast.Name)]
+    ctx.require(len(member) == 1, "_iter_part_patterns: the test that decides on a suffixed group name (`field in <seen>`) was not found")
+    seen_var = unparse(member[0].test.comparators[0])
+    recs = [n.id for n in icfg.nodes if n.kind == "stmt" and isinstance(n.ast, ast.Expr) and isinstance(n.ast.value, ast.Call) and isinstance(n.ast.value.func, ast.Attribute)
+            and unparse(n.ast.value.func.value) == seen_var and n.ast.value.func.attr in ("add", "append") and [unparse(a) for a in n.ast.value.args] == ["field"]]
+    yields = [n.id for n in icfg.nodes if n.ast is not None and n.kind == "stmt" and any(isinstance(x, ast.Yield) for x in ast.walk(n.ast))]
+    ctx.require(len(yields) >= 1, "_iter_part_patterns: no yield")
+    starts = [n.id for n in icfg.nodes if n.kind == "stmt" and isinstance(n.ast, ast.Assign) and unparse(n.ast.targets[0]) == "field"]
+    ctx.require(len(starts) >= 1, "_iter_part_patterns: definition of `field` not found")
+    # from one naming to the next: every path from a yield back to the next `field = ...` or forward from `field = ...` to the yield records the field
+    unrecorded = any(y in icfg.reachable(start=st_, blocked_nodes=recs) for st_ in starts for y in yields) and \
+        any(st_ in icfg.reachable(start=y, blocked_nodes=recs) for st_ in starts for y in yields)
+    ctx.check("R4", bool(recs) and not unrecorded, f"_iter_part_patterns: every named field is recorded in `{seen_var}` between two namings (unique group names)",
+              "v2patterns._iter_part_patterns: a field used twice gets the same group name twice",
+              f"there is a path from `field = ...` to the yield and on to the next naming without `{seen_var}.add(field)`: re.compile raises 'redefinition of group name' for patterns "
+              f"such as 'YYYY.BUILD-YY' or a file pattern with {{version}} and {{pep440_version}}", loc=ipp.loc(), witness={"pattern": "YYYY.BUILD-YY"})
     loop = [n for n in walk_no_nested(ipp.node) if isinstance(n, ast.For)]
     ctx.check("R4", len(loop) == 1 and unparse(loop[0].iter) == "PART_PATTERNS.items()", "_iter_part_patterns iterates all of PART_PATTERNS",
               "v2patterns._iter_part_patterns: not all parts are substituted", "", loc=ipp.loc())
@@ -227,6 +247,7 @@ def run(ctx) -> None:
     # two-digit year parts render the last two digits of a four-digit year; read back they are four-digit years again
     from checks.c14 import two_digit_year_rule
     two_digit_year_rule(ctx, "R4")
+    reader_fold_rule(ctx, "R4")
 
     # ---------------------------------------------------------------- R5
     defaults = _parse_defaults(ctx, pv)
@@ -412,3 +433,76 @@ def _parse_defaults(ctx, pv) -> T.Dict[str, T.Any]:
                 if nm in out and not out[nm]:
                     out[nm] = n.body[0].value.value
     return out
+
+
+def reader_fold_rule(ctx, rule: str) -> None:
+    """The non-calendar fields of a parsed version are the captured texts: the reader's body is folded for sample group
+    dicts (value present / group unmatched (None) / group absent; every combination of TAG and PYTAG) and each constructor
+    argument must be the captured value (int for numeric fields), the other tag form through the tag maps, or the default."""
+    import types
+    from sa.model import CannotFold
+    prog = ctx.prog
+    pv = prog.function("v2version.parse_field_values_to_vinfo")
+    body = [st for st in pv.node.body if not (isinstance(st, ast.Expr) and isinstance(st.value, ast.Constant))]
+    if not body or not isinstance(body[-1], ast.Return) or not isinstance(body[-1].value, ast.Call):
+        ctx.observe("parse_field_values_to_vinfo: not a straight-line reader ending in the constructor call; value flow of the non-calendar fields not folded")
+        return
+    kws = shapes.kwargs_of(body[-1].value)
+    t2p = prog.const("version", "PEP440_TAG_BY_TAG")
+    p2t = prog.const("version", "TAG_BY_PEP440_TAG")
+    param = pv.params[0]
+    ints = {"major": 0, "minor": 0, "patch": 0, "num": 0, "inc0": 0, "inc1": 1}
+    strs = {"githash": ("gabc123", ""), "hexhash": ("0xab12", ""), "bid": ("1007", "1000")}
+    ABSENT = object()
+
+    def run_case(groups: T.Dict[str, T.Any]) -> T.Optional[T.Dict[str, T.Any]]:
+        env: T.Dict[str, T.Any] = {param: dict(groups), "__stubs__": {"parse_field_values_to_cinfo": lambda f, node: types.SimpleNamespace(
+            **{k: f"cal:{k}" for k in ("year_y", "year_g", "quarter", "month", "dom", "doy", "week_w", "week_u", "week_v")})}}
+        try:
+            prog._propagate(pv.module, body[:-1], env, pv.fq)
+            return {k: prog.fold(pv.module, v, env) for k, v in kws.items() if k in ints or k in strs or k in ("tag", "pytag")}
+        except (CannotFold, KeyError, TypeError, ValueError, AttributeError, IndexError):
+            return None
+    cases: T.List[T.Tuple[T.Dict[str, T.Any], T.Dict[str, T.Any]]] = []
+    for f_, dflt in ints.items():
+        cases.append(({f_: "7", "bid": "1001"}, {f_: 7}))
+        cases.append(({f_: "0", "bid": "1001"}, {f_: 0}))
+        cases.append(({f_: None, "bid": "1001"}, {f_: dflt}))
+        cases.append(({"bid": "1001"}, {f_: dflt}))
+    for f_, (sample, dflt) in strs.items():
+        cases.append(({f_: sample}, {f_: sample}))
+        if f_ != "bid":
+            cases.append(({f_: None}, {f_: dflt}))
+        cases.append(({}, {f_: dflt}))
+    tag_samples = [ABSENT, None] + sorted(set(t2p) - {"final"})
+    py_samples = [ABSENT, None] + sorted(p2t)
+    for tg in tag_samples:
+        for py in py_samples:
+            g: T.Dict[str, T.Any] = {"bid": "1001"}
+            if tg is not ABSENT:
+                g["tag"] = tg
+            if py is not ABSENT:
+                g["pytag"] = py
+            tg_v = tg if isinstance(tg, str) else ""
+            py_v = py if isinstance(py, str) else ""
+            want_tag = tg_v or (p2t[py_v] if py_v else "final")
+            want_py = py_v or (t2p[tg_v] if tg_v else "")
+            cases.append((g, {"tag": want_tag, "pytag": want_py}))
+    n_folded = 0
+    bad: T.List[str] = []
+    for groups, want in cases:
+        got = run_case(groups)
+        if got is None:
+            continue
+        n_folded += 1
+        for k, v in want.items():
+            if k in got and (got[k] != v or type(got[k]) is not type(v)):
+                bad.append(f"groups {groups} -> {k}={got[k]!r}, expected {v!r}")
+    if n_folded < len(cases):
+        ctx.observe(f"parse_field_values_to_vinfo: {len(cases) - n_folded} of {len(cases)} sample group dicts could not be folded (shape); decided on the rest")
+    ctx.floor(rule, f"of {len(cases)} reader sample group dicts folded (informational; unfolded samples fall back to the structural rules)", n_folded, 0)
+    if n_folded == 0:
+        return
+    ctx.check(rule, not bad, f"parse_field_values_to_vinfo: non-calendar fields are the captured texts / their defaults ({n_folded} sample group dicts folded)",
+              "v2version.parse_field_values_to_vinfo: a captured non-calendar value is not what the reader returns",
+              "; ".join(bad[:3]), loc=pv.loc(), witness={"cases": bad[:5]})
